@@ -2,4 +2,4 @@ From Coq Require Import Extraction ExtrOcamlBasic ExtrOcamlString.
 From Oras Require Import Base.Prelude Model.TarRoundTrip.
 Extraction Language OCaml.
 Extraction "xc12.ml" tar_entries extract fs_lookup unpack copy_into benign_tree wf_treeb modes_okb is_dir
-  expected expected_impl sort_tree strip_times dir_descriptor push_file file_descriptor extract_p extract_prefix_p extract_partial unpack_residue fs_init extract_list_partial finish_dirs fs_init_sg sgid extract_sg.
+  expected expected_impl sort_tree strip_times dir_descriptor push_file file_descriptor extract_p extract_prefix_p extract_partial unpack_residue fs_init extract_list_partial finish_dirs fs_init_sg sgid extract_sg extract_po restore_order.
